@@ -1,3 +1,6 @@
+import CffiVerif.Model.InitBase
+import CffiVerif.Generated.InitExprs
+
 /-
 Model of `ffi.new` and of assignment into existing C memory
 (`src/c/_cffi_backend.c`): `direct_newp` (3843), `convert_from_object` (1644),
@@ -20,8 +23,15 @@ types modelled), custom allocators, anonymous nested struct/union members
 (their fields are flattened by the real `fields` attribute and appear here as
 ordinary fields).  Type identity of a cdata initialiser (`cd->c_type == ct`) is
 an input (`same`).
+
+Tie to the source: every size expression and size-related condition below (`InitExprs.*`) is
+regenerated from `_cffi_backend.c` by translate/init_exprs.py on each check run
+(`Generated/InitExprs.lean`); Proofs/Init.lean shows that the definitions built from them equal
+the reference forms (`…Ref`) the theorems are proved about, so a change of the C expressions is
+re-checked by the kernel.
 -/
 namespace CffiVerif.Init
+open CffiVerif.Generated
 
 /-- Exception *types* of the real code plus the undefined-behaviour outcome. -/
 inductive Err
@@ -157,22 +167,18 @@ def Ty.isBool : Ty → Bool
 (an explicit integer length). -/
 def newArrayLength : Init → R (Nat × Bool)
   | .seq items => .ok (items.length, false)
-  | .bytes b => .ok (b.length + 1, false)
+  | .bytes b => .ok ((InitExprs.nalBytes b.length).toNat, false)
   | .int v =>
       if v < -(2:Int)^63 ∨ v ≥ (2:Int)^63 then .error .overflow      -- PyNumber_AsSsize_t
-      else if v < 0 then .error .value
+      else if InitExprs.nalNegative v then .error .value
       else .ok (v.toNat, true)
   | _ => .error .type
 
-/-- Two's-complement wrap to a signed 64-bit `Py_ssize_t`. -/
-def wrap64 (x : Int) : Int := (x + (2:Int)^63) % (2:Int)^64 - (2:Int)^63
-
 /-- `add_varsize_length(offset, itemsize, varsizelength, &optvarsize)`. -/
 def addVarsize (offset itemsize n cur : Nat) : R Nat :=
-  let size := wrap64 ((offset : Int) + wrap64 ((itemsize : Int) * (n : Int)))
-  if size < 0 then .error .overflow
-  else if itemsize ≠ 0 ∧ (size - (offset : Int)).tdiv (itemsize : Int) ≠ (n : Int) then .error .overflow
-  else .ok (if size.toNat > cur then size.toNat else cur)
+  let size := InitExprs.avSize offset itemsize n
+  if InitExprs.avOverflow size offset itemsize n then .error .overflow
+  else .ok (if InitExprs.avUpdate size cur then size.toNat else cur)
 
 /-- One store performed by a conversion (or the exception that stops it). -/
 inductive Op
@@ -246,10 +252,20 @@ inductive FieldCtx
   | field (bits : Option (Nat × Nat))
   deriving DecidableEq, Repr
 
-def tooMany (len : Option Nat) (n : Nat) : Bool :=
+/-- `ct_length` as the C code sees it: −1 for an open array. -/
+def ctLength (len : Option Nat) : Int :=
   match len with
-  | some l => decide (n > l)
-  | none => false
+  | some l => l
+  | none => -1
+
+/-- `ct->ct_length >= 0 && n > ct->ct_length` (too many initialisers / bytes too long). -/
+def tooMany (len : Option Nat) (n : Nat) : Bool :=
+  InitExprs.caTooMany n (ctLength len)
+
+/-- The bytes `memcpy` copies for a `bytes` initialiser: `if (n != ct->ct_length) n++;` takes the
+terminating NUL of the bytes object along. -/
+def bytesPayload (len : Option Nat) (b : List UInt8) : List UInt8 :=
+  if InitExprs.caAddNul b.length (ctLength len) then b ++ [0] else b
 
 mutual
 /-- `convert_from_object(data + off, ty, init)`, or for `fc = .field bits` the body of
@@ -283,7 +299,7 @@ def convert (m : Mem) (off : Nat) (ty : Ty) (fc : FieldCtx) (init : Init) : R Me
             if item.isByteLike then
               if tooMany len b.length then .error .index
               else
-                let payload := if len = some b.length then b else b ++ [0]
+                let payload := bytesPayload len b
                 if item.isBool && payload.any (fun c => decide (c > 1)) then .error .value
                 else write m off payload
             else .error .type
@@ -382,7 +398,7 @@ def plan (off : Nat) (ty : Ty) (fc : FieldCtx) (init : Init) : List Op :=
             if item.isByteLike then
               if tooMany len b.length then [.fail .index]
               else
-                let payload := if len = some b.length then b else b ++ [0]
+                let payload := bytesPayload len b
                 if item.isBool && payload.any (fun c => decide (c > 1)) then [.fail .value]
                 else [.store off payload]
             else [.fail .type]
@@ -508,42 +524,50 @@ def Ty.isCharPrim : Ty → Bool
   | .prim .char => true
   | _ => false
 
+/-- `ct_size` as the C code sees it: −1 when unknown. -/
+def Ty.ctSize (ty : Ty) : Int :=
+  match ty.size? with
+  | some s => s
+  | none => -1
+
 /-- Size computation of `direct_newp` for `ct = ty *`. -/
 def allocPtr (ty : Ty) (init : Option Init) : R (Nat × Option Nat) :=
-  match ty.size? with
-  | none => .error .type                      -- "cannot instantiate ctype of unknown size"
-  | some sz0 =>
-    let sz1 := if ty.isCharPrim then 2 * sz0 else sz0    -- forcefully add another character: a null
+  if InitExprs.npUnknownSize ty.ctSize then .error .type    -- "cannot instantiate ctype of unknown size"
+  else
+    -- forcefully add another character: a null
+    let sz1 := if ty.isCharPrim then (InitExprs.npCharSize ty.ctSize).toNat else ty.ctSize.toNat
     match ty with
     | .agg _ fs =>
         if fs.anyVar then
-          match init with
-          | none => .ok (sz1, some sz1)
-          | some i =>
-              -- `if (init != Py_None && !CData_Check(init))`: a cdata gives no extra length
-              if i.isCData then .ok (sz1, some sz1)
-              else
+          -- `if (init != Py_None && !CData_Check(init))`: no initialiser or a cdata gives no extra length
+          if InitExprs.npPrepassGuard init.isSome (match init with | some i => i.isCData | none => false) then
+            match init with
+            | some i =>
                 match prepassStruct fs i sz1 with
                 | .ok d => .ok (d, some d)
                 | .error e => .error e
+            | none => .error .protocol      -- not reachable: the guard is false without an initialiser
+          else .ok (sz1, some sz1)
         else .ok (sz1, none)
     | _ => .ok (sz1, none)
 
 /-- Size computation of `direct_newp` for an array ctype; also returns the initialiser that
 is left (an integer length is replaced by `None`). -/
 def allocArr (isz : Nat) (len : Option Nat) (init : Option Init) : R (Nat × Option Nat × Option Init) :=
-  match len with
-  | some l => .ok (isz * l, none, init)
-  | none =>
-      match init with
-      | none => .error .type                  -- get_new_array_length(None)
-      | some i =>
-          match newArrayLength i with
-          | .error e => .error e
-          | .ok (n, wasInt) =>
-              let datasize := wrap64 ((n : Int) * (isz : Int))
-              if n > 0 ∧ datasize.tdiv (n : Int) ≠ (isz : Int) then .error .overflow
-              else .ok (datasize.toNat, some n, if wasInt then none else some i)
+  let ctsize : Int := match len with
+    | some l => ((isz * l : Nat) : Int)
+    | none => -1
+  if InitExprs.npOpenArray ctsize then
+    match init with
+    | none => .error .type                  -- get_new_array_length(None)
+    | some i =>
+        match newArrayLength i with
+        | .error e => .error e
+        | .ok (n, wasInt) =>
+            let datasize := InitExprs.npArrSize n isz
+            if InitExprs.npArrOverflow datasize n isz then .error .overflow
+            else .ok (datasize.toNat, some n, if wasInt then none else some i)
+  else .ok (ctsize.toNat, none, init)
 
 /-- `direct_newp(ct, init, &default_allocator)`: `isPtr` selects `ct = ty *` or `ct = ty`
 (an array type).  `limit`: the largest block `calloc` hands out. -/
@@ -574,18 +598,24 @@ def newp (limit : Nat) (isPtr : Bool) (ty : Ty) (init : Option Init) : R Owned :
                   | .error e => .error e
     | _ => .error .type                       -- "expected a pointer or array ctype"
 
+/-- `_cdata_var_byte_size`: the length slot of an owning object of a var-sized struct type, else −1. -/
+def varByteSize (withVar : Bool) (o : Owned) : Option Int :=
+  if withVar then o.length.map (fun n => (n : Int)) else some (-1)
+
 /-- `ffi.sizeof(p[0])` for `p = ffi.new("T *", …)`, `T` a struct or union
 (`direct_sizeof_cdata` → `_cdata_var_byte_size`), and `len(ffi.buffer(p))`. -/
 def sizeofDeref (ty : Ty) (o : Owned) : Option Nat :=
   match ty with
-  | .agg size fs => if fs.anyVar then o.length else some size
+  | .agg size fs =>
+      (varByteSize fs.anyVar o).map fun v =>
+        if InitExprs.szFallback v then size else v.toNat
   | _ => none
 
-/-- `ffi.sizeof(a)` for `a = ffi.new("T[n]" / "T[]", …)`. -/
+/-- `ffi.sizeof(a)` for `a = ffi.new("T[n]" / "T[]", …)`: `get_array_length(cd) * itemsize`. -/
 def sizeofArr (isz : Nat) (len : Option Nat) (o : Owned) : Option Nat :=
   match len with
-  | some l => some (l * isz)
-  | none => o.length.map (· * isz)
+  | some l => some (InitExprs.szArray (l : Int) (isz : Int)).toNat
+  | none => o.length.map fun (n : Nat) => (InitExprs.szArray (n : Int) (isz : Int)).toNat
 
 /-! Well-formedness of a type description (what the layout code guarantees; checked on
 every real type by the correspondence run). -/
